@@ -15,6 +15,14 @@ OS-level cases:  -m mask  nops op...  nans ans...  [n1]  decision...     (negati
   rest; mask bit s-1 = signal s was SIG_IGN before the first main().  Extra records: "40 d1 d2 d3" (dispositions: 0 default,
   1 Application::sigHandler, 2 ignored, 3 other) after every "k blocked_ pending_"; after "30 s": "31 s" discarded by the OS,
   "32 s" not a registered signal, "33 s" no handler installed (not raised); "41 d1 d2 d3" after main() returned.
+  Further ops (OS-level only): 5 = construct another application object, 6 = destroy the most recent other object, 7 = copy the
+  running object and drop the copy (scheduling-point codes 11 / 12 / 13).  The "40"/"41" records carry a 4th value
+  r = Application::getInstance() (0 null, 1 the running object, 2 another object); "34 s" after "30 s" = handler installed but the
+  running object is not registered (not raised); "42 r" after the application object was destroyed.
+  SIGALRM is signal 4 (not in getSignals()): op 8 = setAlarm(n > 0) (code 14), op 9 = setAlarm(0) (code 15); mask bit 3 = SIGALRM
+  ignored by the environment, mask bit 4 (16) = main() is run with --time-limit (it calls setAlarm itself); an expiring alarm is
+  raise(SIGALRM) at a scheduling point; "40"/"41" records: d1 d2 d3 d4 r.  Answer codes in OS-level cases: 0 stop, 2 = the callback
+  first calls setAlarm(n > 0) and continues, 3 = calls setAlarm and stops, anything else continue.
 
 The oracle re-does the ghost accounting of the property on the implementation's trace alone (python, independent of
 the Coq model): every arrival is a token; where it is (own activation / slot / deferred activation / fate) is
@@ -34,12 +42,21 @@ RULE = ('cases = (main flow over block/unblock(false)/unblock(true)/shutdown wit
         'synchronous processSignal(s) call at the yield point; covers re-entry of the same number) and OS-LEVEL (negative first number: the '
         'schedule runs inside a real Application::main() and an arrival is raise(SIGINT/SIGTERM/SIGUSR1) through the handlers main() '
         'installed, mask cleared; dispositions printed at every scheduling point; first main() / second main() / two runs on one object; '
-        'optionally some numbers ignored by the environment before main()). quick = enumeration (depth-first over a python step simulator) '
+        'optionally some numbers ignored by the environment before main(); OS-LEVEL flows may also construct / destroy another Application '
+        'object and copy-and-drop the running one, and Application::getInstance() is printed at every scheduling point and after the '
+        'destruction of the application object; SIGALRM (not a getSignals() number) through setAlarm(n>0) / setAlarm(0) operations of the '
+        'flow, main() with --time-limit, callbacks that call setAlarm first, SIGALRM ignored by the environment or not, the alarm expiring = '
+        'raise(SIGALRM) at a scheduling point). quick = enumeration (depth-first over a python step simulator) '
         'of all DIRECT schedules with <= 3 operations and <= 3 arrivals, and <= 4 operations and <= 2 arrivals, of signal numbers {1,2} with '
         'both callback answers; all OS-LEVEL schedules (first main()) with <= 3 operations and <= 3 arrivals and <= 4 / <= 2 of {1,2}, <= 2/2 inside a second '
         'main() and with number 1 environment-ignored, and two-run cases (every <= 2 ops / <= 2 arrivals first run x every single arrival '
-        'in the second); plus fixed regression shapes, a targeted OS-level stream (arrival while the application holds a block or a '
-        'callback runs, release, later arrival of the same and of another number, stop answers, second main()) and random long schedules '
+        'in the second), all OS-LEVEL flows with <= 3 operations over {block, unblock(true), construct-other, destroy-other, copy-and-drop} '
+        'containing an object operation with <= 2 arrivals (<= 2/2 inside a second main()), all OS-LEVEL flows with <= 3 operations over '
+        '{block, unblock(true), setAlarm} with <= 2 arrivals of {SIGALRM, 1} and callbacks that continue or re-arm, with SIGALRM '
+        'environment-ignored or not (<= 2 ops with --time-limit, <= 2 ops inside a second main()); plus fixed regression shapes, a targeted OS-level stream (arrival while the application holds a block or a '
+        'callback runs, release, later arrival of the same and of another number, stop answers, second main(); half of it with other-object '
+        'construct / destroy / copy operations before and between the arrivals, a third of it about the alarm: SIGALRM environment-ignored x '
+        'setAlarm in the flow / time limit x first / second run x raise(SIGALRM) later, re-arming answers) and random long schedules '
         '(thorough: DIRECT <= 5 ops / 3 arrivals, <= 3 ops / 4 arrivals, 3 numbers; OS-LEVEL <= 4 ops / 3 arrivals, <= 3 ops / 4 arrivals, '
         '3 numbers); non-trivial = at least one arrival; distinct = distinct case tuples')
 TRUSTED_BASE = ['__sync_fetch_and_add/sub/and are atomic with respect to signal handlers (one atomic step each)',
@@ -51,7 +68,13 @@ TRUSTED_BASE = ['__sync_fetch_and_add/sub/and are atomic with respect to signal 
                 'glibc signal() the kernel would additionally hold a same-number arrival pending until its handler returns); '
                 'sigaction(sig, 0, &old) reports the disposition; the two signal() calls of sigHandler have no yield point, so the '
                 'correspondence never interrupts sigHandler between its entry and signal(sig,SIG_IGN) or between the return of '
-                'processSignal and signal(sig,sigHandler) (the theorems do quantify over such interruptions)',
+                'processSignal and signal(sig,sigHandler) (the theorems do quantify over such interruptions); the harness does not raise a '
+                'signal whose handler is installed while Application::getInstance() is not the running object (record 34: sigHandler would '
+                'call processSignal through that pointer and crash the harness) - the oracle reports it from the printed flag instead',
+                'the alarm: an expiring timer is realised as raise(SIGALRM) at a scheduling point (setAlarm arms a real alarm(3600) that is '
+                'cancelled at the end of every case and never fires); whether an alarm is armed at all is not modelled (a SIGALRM may reach '
+                'the process at any time); the seed scenario "second thread takes the alarm while the first is in its handler" is the '
+                'one-thread, no-mask reading here: the second alarm re-enters sigHandler on the same thread',
                 'props/C18.py oracle (ghost accounting and handler-in-progress tracking re-done on the implementation trace) and its '
                 'schedule enumerator']
 ASSUMPTIONS = ['main flow well nested (never more unblockSignals than blockSignals/shutdown in a prefix)',
@@ -64,7 +87,13 @@ ASSUMPTIONS = ['main flow well nested (never more unblockSignals than blockSigna
                'registered number whose disposition is still the default action is outside the model (it cannot happen once main() has '
                'installed: c18_os_dispositions); signals that arrive between two runs of main() are outside the property (no running '
                'application object); after a stop answer the oracle does not judge dispositions / discarded arrivals for the rest of that run '
-               '(the model does, through the correspondence)']
+               '(the model does, through the correspondence)',
+               'instance registration: the other Application objects of a flow never call main() themselves (a nested main() of another '
+               'object would take over the singleton instance_s by design: "running instance (only valid during run())"); after the '
+               'the callback answer is opaque except for one effect: it may call setAlarm(n > 0) as its first action (answer codes 2 / 3); '
+               'killAlarm / setAlarm(0) only cancel the timer (no effect on dispositions or the application object); after the '
+               'application object is destroyed its handlers are still installed and an arrival would call through a null pointer '
+               '(ex_os_arrival_after_destruction) - outside the property (no running application object), the harness resets the dispositions first']
 
 # codes: 1 inc 2 cb-enter 3 cb-exit 4 test 5 write 6 dec | 7 block 8 unblock-dec 9 take 10 clear | 0 idle
 
@@ -121,10 +150,17 @@ def decode_os(c):
 
 
 def pre_of(mask):
-    return set(i for i in (1, 2, 3) if (mask >> (i - 1)) & 1)
+    return set(i for i in (1, 2, 3, 4) if (mask >> (i - 1)) & 1)
 
 
-OPN = {1: 'Block', 2: 'Unblock(false)', 3: 'Unblock(true)', 4: 'Shutdown'}
+def tl_of(mask):
+    """main() is run with a time limit (it calls setAlarm itself)"""
+    return bool((mask >> 4) & 1)
+
+
+OPN = {1: 'Block', 2: 'Unblock(false)', 3: 'Unblock(true)', 4: 'Shutdown', 5: 'NewOtherApp', 6: 'DeleteOtherApp', 7: 'CopyAndDropSelf',
+       8: 'setAlarm(n>0)', 9: 'setAlarm(0)'}
+ANSN = {0: 'stop', 2: 'setAlarm-then-continue', 3: 'setAlarm-then-stop'}
 OSM = {1: 'first main()', 2: 'second main() after an empty run', 3: 'first main() then second main() with the same flow'}
 
 
@@ -134,9 +170,10 @@ def describe(c):
         if t is None:
             return 'malformed OS-level case %s' % c
         m, mask, ops, ans, d1, d2 = t
-        return ('OS-level (raise through the handlers installed by main()): %s; ignored before main()=%s flow=[%s] answers=%s '
-                'decisions=%s%s' % (OSM[m], sorted(pre_of(mask)), ', '.join(OPN.get(o, '?%d' % o) for o in ops),
-                                    ['continue' if a else 'stop' for a in ans], d1, (' second run decisions=%s' % d2) if m == 3 else ''))
+        return ('OS-level (raise through the handlers installed by main(); 4 = SIGALRM): %s%s; ignored before main()=%s flow=[%s] answers=%s '
+                'decisions=%s%s' % (OSM[m], ' with --time-limit' if tl_of(mask) else '', sorted(pre_of(mask)),
+                                    ', '.join(OPN.get(o, '?%d' % o) for o in ops),
+                                    [ANSN.get(a, 'continue') for a in ans], d1, (' second run decisions=%s' % d2) if m == 3 else ''))
     ops, ans, ds = decode(c)
     arr = ['#%d:sig%d' % (i, d) for i, d in enumerate(ds) if d != 0]
     return 'flow=[%s] answers=%s arrivals(at scheduling point)=[%s] decisions=%s' % (
@@ -155,6 +192,8 @@ def sim_code(st):
         return 9
     if not ops:
         return 0
+    if ops[0] in (5, 6, 7, 8, 9):
+        return 6 + ops[0]       # 11 / 12 / 13: construct / destroy another application object, copy-and-drop; 14 / 15: setAlarm(n) / setAlarm(0) (OS-level flows only)
     return 7 if ops[0] in (1, 4) else 8
 
 
@@ -182,6 +221,8 @@ def sim_step(st, ans):
             return (b, 0, 0, ops, ((p, 1, True),))
         return (b, 0, 0, ops, ())
     o = ops[0]
+    if o in (5, 6, 7, 8, 9):
+        return (b, p, 0, ops[1:], ())
     if o in (1, 4):
         return (b + 1, p, 0, ops[1:], ())
     return (b - 1, p, (2 if o == 3 else 1) if b == 1 else 0, ops[1:], ())
@@ -192,39 +233,72 @@ def in_progress(st):
     return set(f[0] for f in st[4] if not f[2])
 
 
-def enumerate_schedules(ops, max_arr, sigs, answers_free=True, limit=None, os_pre=None):
+def d4_boot(pre, tl):
+    """disposition of SIGALRM (0 default, 1 handler, 2 ignored) when a run of the first main() starts"""
+    return 1 if tl else (2 if 4 in pre else 0)
+
+
+def os_accepts(st, d4, s, pre):
+    """does an OS-level arrival of s start a handler (else: discarded / not raised / not a signal of the application)"""
+    if s in (1, 2, 3):
+        return s not in pre and s not in in_progress(st)
+    return s == 4 and d4 == 1
+
+
+def os_sim_step(st, d4, code):
+    """one step (decision 0) of an OS-level run; code = answer code of the callback being entered / left -> (st', d4')"""
+    k = sim_code(st)
+    top = st[4][0] if st[4] else None
+    if k == 14 or (k == 2 and code in (2, 3)):
+        d4 = 1                                  # setAlarm(n > 0): handler installed whatever was there
+    st2 = sim_step(st, code not in (0, 3))
+    if top is not None and len(st2[4]) < len(st[4]) and top[0] == 4 and not top[2]:
+        d4 = 1                                  # ~ScopedSig of a SIGALRM activation
+    return st2, d4
+
+
+def enumerate_schedules(ops, max_arr, sigs, answers_free=True, limit=None, os_pre=None, d4=0, codes=None):
     """all (answers, decisions) of complete runs of the flow with at most max_arr arrivals;
     os_pre = set of numbers ignored before main(): OS-level arrivals (an arrival of a number that is ignored - before main()
-    or because its handler is in progress - is discarded and changes nothing)"""
+    or because its handler is in progress - is discarded and changes nothing); d4 = initial disposition of SIGALRM;
+    codes = answer codes to choose from when a callback is ENTERED (2 / 3 re-arm the alarm), default: 1 / 0 chosen at its exit"""
     out = []
     ops = tuple(ops)
 
-    def dfs(st, left, ds, ans):
+    def dfs(st, left, ds, ans, d4, cur):
         if limit is not None and len(out) >= limit:
             return
         k = sim_code(st)
         if left > 0:
             for s in sigs:
                 b, p, mpc, o, stack = st
-                if os_pre is not None and (s in os_pre or s in in_progress(st) or s not in (1, 2, 3)):
-                    dfs(st, left - 1, ds + [s], ans)
+                if os_pre is not None and not os_accepts(st, d4, s, os_pre):
+                    dfs(st, left - 1, ds + [s], ans, d4, cur)
                 else:
-                    dfs((b, p, mpc, o, ((s, 1, False),) + stack), left - 1, ds + [s], ans)
+                    dfs((b, p, mpc, o, ((s, 1, False),) + stack), left - 1, ds + [s], ans, 2 if (os_pre is not None and s == 4) else d4, cur)
         if k == 0:
             out.append((list(ans), list(ds)))
             return
-        if k == 3:
-            dfs(sim_step(st, True), left, ds + [0], ans + [1])
-            if answers_free:
-                dfs(sim_step(st, False), left, ds + [0], ans + [0])
+        if codes is not None and k == 2:
+            for c_ in codes:
+                st2, e4 = os_sim_step(st, d4, c_)
+                dfs(st2, left, ds + [0], ans, e4, c_)
+        elif codes is not None and k == 3:
+            st2, e4 = os_sim_step(st, d4, cur)
+            dfs(st2, left, ds + [0], ans + [cur], e4, None)
+        elif k == 3:
+            for a_ in ((1, 0) if answers_free else (1,)):
+                st2, e4 = os_sim_step(st, d4, a_)
+                dfs(st2, left, ds + [0], ans + [a_], e4, None)
         else:
-            dfs(sim_step(st, True), left, ds + [0], ans)
-    dfs((0, 0, 0, ops, ()), max_arr, [], [])
+            st2, e4 = os_sim_step(st, d4, 1)
+            dfs(st2, left, ds + [0], ans, e4, cur)
+    dfs((0, 0, 0, ops, ()), max_arr, [], [], d4, None)
     return out
 
 
-def complete(ops, ds, ans, os_pre=None):
-    """decisions ds followed by as many 0 as the run needs to become idle (answers: ans, then continue)"""
+def complete(ops, ds, ans, os_pre=None, d4=0, ret_d4=False):
+    """decisions ds followed by as many 0 as the run needs to become idle (answer codes: ans, then continue)"""
     st = (0, 0, 0, tuple(ops), ())
     ai = 0
     out = []
@@ -233,20 +307,21 @@ def complete(ops, ds, ans, os_pre=None):
         d = ds[i] if i < len(ds) else 0
         k = sim_code(st)
         if d == 0 and k == 0:
-            return out     # the run ends at the idle point (later decisions are never consumed)
+            return (out, d4) if ret_d4 else out     # the run ends at the idle point (later decisions are never consumed)
         i += 1
         out.append(d)
         if d != 0:
             b, p, mpc, o, stack = st
-            if os_pre is not None and (d in os_pre or d in in_progress(st) or d not in (1, 2, 3)):
+            if os_pre is not None and not os_accepts(st, d4, d, os_pre):
                 continue
             st = (b, p, mpc, o, ((d, 1, False),) + stack)
+            if os_pre is not None and d == 4:
+                d4 = 2
             continue
-        a = True
+        code = (ans[ai] if ai < len(ans) else 1) if k in (2, 3) else 1
         if k == 3:
-            a = bool(ans[ai]) if ai < len(ans) else True
             ai += 1
-        st = sim_step(st, a)
+        st, d4 = os_sim_step(st, d4, code)
 
 
 def flows(maxlen, alphabet=(1, 2, 3)):
@@ -258,6 +333,8 @@ def flows(maxlen, alphabet=(1, 2, 3)):
             for o in alphabet:
                 if o in (1, 4):
                     nf.append((f + [o], d + 1))
+                elif o in (5, 6, 7, 8, 9):
+                    nf.append((f + [o], d))
                 elif d > 0:
                     nf.append((f + [o], d - 1))
         res += [f for f, _ in nf]
@@ -274,7 +351,7 @@ def parse(obs):
     n = len(obs)
     while i < n:
         k = obs[i]
-        if 0 <= k <= 10 and i + 2 <= n - 1:
+        if 0 <= k <= 15 and i + 2 <= n - 1:
             ev.append(('R', k, obs[i + 1], obs[i + 2]))
             i += 3
         elif k in (20, 21, 30) and i + 1 <= n - 1:
@@ -518,19 +595,22 @@ def parse_os(obs):
     i, n = 0, len(obs)
     while i < n:
         k = obs[i]
-        if 0 <= k <= 10 and i + 6 < n and obs[i + 3] == 40:
-            ev.append(('R', k, obs[i + 1], obs[i + 2], tuple(obs[i + 4:i + 7])))
-            i += 7
+        if 0 <= k <= 15 and i + 8 < n and obs[i + 3] == 40:
+            ev.append(('R', k, obs[i + 1], obs[i + 2], tuple(obs[i + 4:i + 8]), obs[i + 8]))
+            i += 9
         elif k in (20, 21, 30) and i + 1 < n:
             ev.append(({20: 'CB', 21: 'CE', 30: 'AR'}[k], obs[i + 1]))
             i += 2
-        elif k in (31, 32, 33) and i + 1 < n:
+        elif k in (31, 32, 33, 34) and i + 1 < n:
             ev.append(('NOTE', k, obs[i + 1]))
             i += 2
-        elif k == 41 and i + 3 < n:
-            runs.append((ev, tuple(obs[i + 1:i + 4])))
+        elif k == 41 and i + 5 < n:
+            runs.append((ev, tuple(obs[i + 1:i + 6])))
             ev = []
-            i += 4
+            i += 6
+        elif k == 42 and i + 2 == n and not ev and runs:
+            runs.append(('destroyed', obs[i + 1]))
+            i += 2
         else:
             return None
     if ev:
@@ -538,13 +618,16 @@ def parse_os(obs):
     return runs
 
 
-def os_pass(ev, pre, ever, bad, stats):
+def os_pass(ev, pre, ever, bad, stats, al):
     """follows the sigHandler activations in progress through one run and judges dispositions / discarded arrivals;
     returns the trace without the OS-level records (for the ghost accounting), or None"""
     plain = []
     stk = []            # activations in progress, top last: signal id, or None for the nested call of unblockSignals
     stops = 0           # callbacks that answered stop in this run: from then on signals stay blocked for good and the property
                         # does not say what becomes of later ones (the model still does: any difference is a correspondence failure)
+    # al: what is known about SIGALRM, carried from run to run: 'set' = setAlarm(n > 0) has been executed (by main() for a time
+    # limit, by the flow, by a callback), 'd4' = the disposition the code's own signal() calls imply (last writer: setAlarm ->
+    # handler, sigHandler entry -> ignored, ~ScopedSig -> handler), 'codes' / 'cb' = answer codes of the case / callbacks so far
     i, n = 0, len(ev)
 
     def busy():
@@ -553,9 +636,19 @@ def os_pass(ev, pre, ever, bad, stats):
         e = ev[i]
         if e[0] != 'R':
             return None
-        _, k, b, p, dv = e
+        _, k, b, p, dv, rg = e
         plain += [k, b, p]
+        if rg != 1:
+            bad('running-application-not-registered')     # getInstance() is null / another object while main() of this one runs
         act = busy()
+        got4 = dv[3]
+        if al['set'] and 4 not in act and got4 != 1:
+            if stops == 0:
+                bad('alarm-handler-not-installed-by-setAlarm')      # setAlarm was executed, no SIGALRM handler in progress
+        elif not al['set'] and got4 != al['d4']:
+            bad('alarm-disposition-changed-without-setAlarm')
+        elif al['set'] and got4 != al['d4'] and stops == 0:
+            bad('alarm-handler-not-installed-by-setAlarm' if al['d4'] == 1 else 'alarm-disposition-unexpected-during-its-handler')
         for s_ in (1, 2, 3):
             got = dv[s_ - 1]
             want = 2 if (s_ in pre or s_ in act) else 1
@@ -579,19 +672,29 @@ def os_pass(ev, pre, ever, bad, stats):
                     return None
                 if note[1] == 31:
                     stats['os_discarded'] += 1
-                    if d not in pre and d not in act and stops == 0:
+                    if d == 4:
+                        if al['set'] and al['d4'] == 1 and stops == 0:
+                            bad('alarm-dropped-while-deliverable')      # setAlarm installed the handler and nothing of the code ignored it since
+                    elif d not in pre and d not in act and stops == 0:
                         bad('signal-dropped-by-os-while-deliverable')
                 elif note[1] == 33:
-                    bad('handler-not-installed')
-                elif d in (1, 2, 3):
+                    if d != 4 or al['set']:
+                        bad('alarm-handler-not-installed-by-setAlarm' if d == 4 else 'handler-not-installed')
+                elif note[1] == 34:
+                    bad('signal-lost:handler-would-call-through-unregistered-application')
+                elif d in (1, 2, 3, 4):
                     return None
                 del plain[-3:]      # nothing happened to the application: the same scheduling point is recorded again
                 i += 3
                 continue
-            if d not in (1, 2, 3):
+            if d not in (1, 2, 3, 4):
                 return None
-            if d in pre or d in act:
+            if d != 4 and (d in pre or d in act):
                 bad('ignored-signal-reached-the-application')
+            if d == 4:
+                if not al['set']:
+                    bad('alarm-delivered-without-setAlarm')
+                al['d4'] = 2
             plain += [30, d]
             stk.append(d)
             ever.add(d)
@@ -603,6 +706,13 @@ def os_pass(ev, pre, ever, bad, stats):
             if i != n - 1:
                 return None
             break
+        if k in (11, 12, 13, 14, 15):   # an operation on another application object / setAlarm: a main-flow step
+            if stk:
+                return None
+            if k == 14:
+                al['set'], al['d4'] = True, 1
+            i += 1
+            continue
         if 1 <= k <= 6 and not stk:
             if k != 1:
                 return None
@@ -611,11 +721,18 @@ def os_pass(ev, pre, ever, bad, stats):
         if nxt is not None and nxt[0] in ('CB', 'CE'):
             plain += [20 if nxt[0] == 'CB' else 21, nxt[1]]
             j = i + 2
+            if k == 2 and nxt[0] == 'CB':
+                code = al['codes'][al['cb']] if al['cb'] < len(al['codes']) else 1
+                al['cb'] += 1
+                if code in (2, 3):
+                    al['set'], al['d4'] = True, 1       # the callback re-arms the alarm as its first action
             if k == 3 and nxt[0] == 'CE' and nxt[1] == 0 and stk:
-                stk.pop()           # stop: processSignal returns at once, ~ScopedSig runs
+                if stk.pop() == 4:  # stop: processSignal returns at once, ~ScopedSig runs
+                    al['d4'] = 1
                 stops += 1
         if k == 6 and stk:
-            stk.pop()
+            if stk.pop() == 4:
+                al['d4'] = 1
         i = j
     if stk:
         bad('activation-never-finished')
@@ -633,14 +750,22 @@ def account_os(c, obs):
     t = decode_os(c)
     if t is None:
         return ([] if obs == [-3] else ['trace-malformed']), stats
-    m, mask, ops, _, _, _ = t
+    m, mask, ops, ans_codes, _, _ = t
     runs = parse_os(obs)
-    if runs is None or len(runs) != (2 if m == 3 else 1):
+    if runs is None or len(runs) != (3 if m == 3 else 2) or runs[-1][0] != 'destroyed':
         return ['trace-malformed'], stats
+    if runs[-1][1] != 0:
+        bad('destroyed-application-still-registered')
+    runs = runs[:-1]
     pre = pre_of(mask)
     ever = set()
+    al = {'set': False, 'd4': 2 if 4 in pre else 0, 'codes': list(ans_codes), 'cb': 0}
+    if m == 2 and tl_of(mask):
+        al['set'], al['d4'] = True, 1         # the (empty) first run already armed the time limit
     for ev, _after in runs:       # what main() leaves behind when it returns is not judged (the next run's records are)
-        plain = os_pass(ev, pre, ever, bad, stats)
+        if tl_of(mask):
+            al['set'], al['d4'] = True, 1     # main() with a time limit calls setAlarm after its installation loop
+        plain = os_pass(ev, pre, ever, bad, stats, al)
         if plain is None:
             return sigs + ['trace-malformed'], stats
         s2, st2 = account_ops(ops, plain)
@@ -688,7 +813,44 @@ FIXED_OS = [
     (3, 0, [1, 3], [], [0, 1], [1, 0, 0, 0, 0, 2], 'os-two-runs-blocked-arrival-in-first'),
     (3, 2, [1, 2], [], [0, 1, 2], [0, 2, 1], 'os-two-runs-ignored-and-dropped'),
     (1, 0, [1, 3], [], [0, 4, 1], None, 'os-unregistered-number'),
+    (1, 0, [5, 6, 7], [], [0, 0, 0, 1, 0, 0, 0, 0, 0, 0, 2], None, 'os-other-objects-destroyed-then-arrivals'),
+    (1, 0, [7, 1, 3], [], [0, 0, 1, 0, 0, 0, 0, 0, 0, 0, 0, 0, 0, 0, 1], None, 'os-copy-dropped-then-blocked-arrival'),
+    (1, 0, [5, 1, 6, 3], [], [1, 0, 0, 0, 0, 0, 0, 2, 0, 0, 0, 0, 0, 0, 0, 0, 0, 0, 0, 0, 1], None, 'os-other-object-destroyed-while-blocked'),
+    (2, 0, [5, 6], [], [0, 0, 1], None, 'os-second-main-other-object'),
+    (3, 0, [5], [], [0, 1], [2, 0, 0, 0, 0, 0, 0, 1], 'os-two-runs-other-object-alive-across-runs'),
+    (3, 0, [6, 7], [], [1], [0, 0, 2], 'os-two-runs-destroy-in-second'),
+    # SIGALRM (4): setAlarm from the flow / main() with a time limit (mask 16) / environment-ignored SIGALRM (mask 8) / re-arming callbacks
+    (1, 8, [8], [], [4, 0, 4, 0, 0, 0, 0, 4], None, 'alarm-env-ignored-then-setAlarm'),
+    (1, 24, [], [], [4, 0, 0, 0, 0, 4], None, 'alarm-env-ignored-time-limit'),
+    (1, 0, [8], [2], [0, 4, 0, 0, 0, 4, 0, 0, 0, 0, 0, 0, 0, 0, 0, 4], None, 'alarm-rearmed-in-callback-second-alarm-during-callback'),
+    (1, 0, [8, 1, 3], [2, 1], [0, 4, 0, 0, 0, 4, 0, 0, 0, 0, 0, 0, 0, 0, 0, 0, 0, 0, 0, 0, 0, 0, 4], None, 'alarm-rearmed-remembered-delivered-on-release'),
+    (1, 8, [1, 8, 3, 9], [3], [0, 0, 4, 0, 0, 0, 0, 0, 0, 0, 0, 0, 0, 0, 0, 0, 4], None, 'alarm-while-blocked-then-stop-rearm'),
+    (2, 8, [8], [], [0, 4], None, 'alarm-second-main-setAlarm'),
+    (2, 24, [], [1], [4, 0, 0, 0, 0, 4], None, 'alarm-second-main-time-limit'),
+    (3, 8, [8], [], [4, 0, 4], [4, 0, 0, 0, 0, 0, 4], 'alarm-two-runs-handler-persists'),
+    (3, 24, [1, 3], [2], [0, 4], [4, 0, 0, 4], 'alarm-two-runs-time-limit'),
+    (1, 0, [], [], [4], None, 'alarm-without-setAlarm-not-raised'),
 ]
+
+
+def with_alarm(rnd, f):
+    """the flow f with setAlarm(n > 0) (mostly early) and sometimes setAlarm(0)"""
+    g = list(f)
+    g.insert(rnd.randint(0, min(1, len(g))), 8)
+    while rnd.random() < 0.3:
+        g.insert(rnd.randint(0, len(g)), rnd.choice([8, 9]))
+    return g
+
+
+def with_objects(rnd, f):
+    """the flow f with construct / destroy / copy-and-drop operations on other application objects sprinkled in"""
+    g = []
+    for o in list(f) + [None]:
+        while rnd.random() < 0.45:
+            g.append(rnd.choice([5, 6, 7, 5, 6]))
+        if o is not None:
+            g.append(o)
+    return g
 
 
 def os_targeted(rnd, count):
@@ -696,38 +858,63 @@ def os_targeted(rnd, count):
     goes on to the idle point, then the SAME number arrives, then another one; in every OS-level mode; some callbacks answer stop"""
     out = []
     flows_ = [[1, 3], [1, 2], [1, 1, 3, 3], [], [1, 3, 1, 3], [1, 1, 2, 3], [4], [1, 3, 4]]
-    for _ in range(count):
+    for n_ in range(count):
         f = rnd.choice(flows_)
+        if n_ % 2 == 1:
+            f = with_objects(rnd, f)      # other application objects come and go before and between the arrivals
         a = rnd.randint(1, 3)
         b = rnd.choice([x for x in (1, 2, 3) if x != a])
         mask = 0 if rnd.random() < 0.8 else rnd.randint(1, 7)
-        pre = pre_of(mask)
         ans = [1 if rnd.random() < 0.8 else 0 for _ in range(rnd.randint(0, 4))]
-        base = complete(f, [], ans, pre)
+        if n_ % 3 == 0:                   # the alarm: SIGALRM ignored by the environment or not, setAlarm in the flow / time limit, re-arming callbacks
+            a = 4
+            mask = (mask & 7) | rnd.choice([0, 8, 8, 16, 24])
+            if not tl_of(mask) or rnd.random() < 0.3:
+                f = with_alarm(rnd, f)
+            ans = [rnd.choice([1, 1, 2, 2, 3, 0]) for _ in range(rnd.randint(1, 4))]
+        pre = pre_of(mask)
+        d4i = d4_boot(pre, tl_of(mask))
+        def comp(f_, ds_, ans_, pre_):
+            return complete(f_, ds_, ans_, pre_, d4=d4i)
+        base = comp(f, [], ans, pre)
         ds = list(base[:rnd.randint(0, len(base))]) + [a]
         if rnd.random() < 0.5:                      # a second arrival while the first one's handler / the block is in progress
-            ds = complete(f, ds, ans, pre)
+            ds = comp(f, ds, ans, pre)
             cut = rnd.randint(max(len(ds) - 6, 0), len(ds))
             ds = ds[:cut] + [rnd.choice([a, b])]
-        ds = complete(f, ds, ans, pre) + [a]        # later arrival of the same number at the idle point
-        ds = complete(f, ds, ans, pre) + [b]        # and of another number
-        ds = complete(f, ds, ans, pre)
+        ds = comp(f, ds, ans, pre) + [a]        # later arrival of the same number at the idle point
+        ds = comp(f, ds, ans, pre) + [b]        # and of another number
+        ds = comp(f, ds, ans, pre)
         m = rnd.choice([1, 1, 2, 3])
+        tag = ('-alarm' if n_ % 3 == 0 else '') + ('-objects' if n_ % 2 else '')
         if m == 3:
             cut = rnd.randint(0, len(ds))
-            d1 = complete(f, ds[:cut], ans, pre)
+            d1 = comp(f, ds[:cut], ans, pre)
             d2 = [a, 0, 0, 0, 0, b] if rnd.random() < 0.5 else ds[cut:]
-            out.append((enc_os(3, mask, f, ans, d1, d2), {'kind': 'os-targeted-two-runs'}))
+            out.append((enc_os(3, mask, f, ans, d1, d2), {'kind': 'os-targeted-two-runs' + tag}))
         else:
-            out.append((enc_os(m, mask, f, ans, ds), {'kind': 'os-targeted'}))
+            out.append((enc_os(m, mask, f, ans, ds), {'kind': 'os-targeted' + tag}))
     return out
 
 
 def random_os_case(rnd, nops, narr, nsig):
     c = random_case(rnd, nops, narr, nsig)
     ops, ans, ds = decode(c)
+    if rnd.random() < 0.5:
+        n0 = len(ops)
+        ops = with_objects(rnd, ops)
+        for _ in range(len(ops) - n0):          # one more scheduling point per object operation
+            ds.insert(rnd.randrange(len(ds) + 1), 0)
     m = rnd.choice([1, 1, 2, 3])
     mask = 0 if rnd.random() < 0.8 else rnd.randint(1, 7)
+    if rnd.random() < 0.4:                      # the alarm
+        mask |= rnd.choice([0, 8, 16, 24])
+        n0 = len(ops)
+        ops = with_alarm(rnd, ops)
+        for _ in range(len(ops) - n0):
+            ds.insert(rnd.randrange(len(ds) + 1), 0)
+        ds = [4 if (d != 0 and rnd.random() < 0.6) else d for d in ds]
+        ans = [rnd.choice([0, 1, 1, 2, 2, 3]) for _ in ans] or [2]
     if m == 3:
         cut = rnd.randint(0, len(ds))
         return enc_os(3, mask, ops, ans, ds[:cut], ds[cut:])
@@ -762,15 +949,21 @@ def gen(seed, tier):
         spec = [(3, 3, (1, 2)), (4, 2, (1, 2))]
         # OS-level: (max ops, max arrivals, numbers, mode, mask)
         spec_os = [(3, 3, (1, 2), 1, 0), (4, 2, (1, 2), 1, 0), (2, 2, (1, 2), 2, 0), (2, 2, (1, 2), 1, 1)]
-        nrand, nrand_os, ntarget = 3000, 2000, 1500
+        spec_obj = [(3, 2, 1), (2, 2, 2)]
+        spec_alarm = [(3, 2, 1, 0, (1, 2)), (3, 2, 1, 8, (1, 2)), (2, 2, 1, 24, (1, 2)), (2, 2, 2, 8, (1, 2)), (1, 2, 2, 24, (1, 2, 3, 0))]
+        nrand, nrand_os, ntarget = 3000, 3000, 2400
     elif tier == 'thorough':
         spec = [(5, 3, (1, 2)), (3, 4, (1, 2)), (3, 3, (1, 2, 3)), (6, 1, (1,))]
         spec_os = [(4, 3, (1, 2), 1, 0), (3, 4, (1, 2), 1, 0), (3, 3, (1, 2, 3), 1, 0), (3, 3, (1, 2), 2, 0), (3, 2, (1, 2, 3), 1, 5)]
-        nrand, nrand_os, ntarget = 200000, 60000, 20000
+        spec_obj = [(4, 2, 1), (3, 3, 1), (3, 2, 2)]
+        spec_alarm = [(3, 3, 1, 0, (1, 2)), (3, 3, 1, 8, (1, 2)), (4, 2, 1, 8, (1, 2)), (3, 2, 1, 24, (0, 1, 2, 3)), (3, 2, 2, 8, (1, 2)), (2, 3, 2, 24, (0, 1, 2, 3))]
+        nrand, nrand_os, ntarget = 200000, 80000, 30000
     else:
         spec = [(2, 2, (1, 2))]
         spec_os = [(2, 2, (1, 2), 1, 0)]
-        nrand, nrand_os, ntarget = 3000, 2000, 1500
+        spec_obj = [(2, 2, 1)]
+        spec_alarm = [(2, 2, 1, 8, (1, 2))]
+        nrand, nrand_os, ntarget = 3000, 3000, 2400
     seen = set()
     for (maxops, maxarr, sg, m, mask) in spec_os:
         for f in flows(maxops):
@@ -780,6 +973,29 @@ def gen(seed, tier):
                 if t not in seen:
                     seen.add(t)
                     out.append((c, {'kind': 'os-exhaustive-ops%d-arr%d-mode%d-mask%d' % (maxops, maxarr, m, mask)}))
+    # flows that also construct / destroy other application objects and copy-and-drop the running one
+    for (maxops, maxarr, m) in spec_obj:
+        for f in flows(maxops, alphabet=(1, 3, 5, 6, 7)):
+            if not any(o in (5, 6, 7) for o in f):
+                continue
+            for ans, ds in enumerate_schedules(f, maxarr, (1, 2), os_pre=set()):
+                c = enc_os(m, 0, f, ans, ds)
+                t = tuple(c)
+                if t not in seen:
+                    seen.add(t)
+                    out.append((c, {'kind': 'os-exhaustive-objects-ops%d-arr%d-mode%d' % (maxops, maxarr, m)}))
+    # SIGALRM: (max ops over {block, unblock(true), setAlarm}, max arrivals of {4, 1}, mode, mask); callbacks continue or re-arm
+    for (maxops, maxarr, m, mask, codes) in spec_alarm:
+        pre_, tl_ = pre_of(mask), tl_of(mask)
+        for f in flows(maxops, alphabet=(1, 3, 8)):
+            if not tl_ and 8 not in f:
+                continue
+            for ans, ds in enumerate_schedules(f, maxarr, (4, 1), os_pre=pre_, d4=d4_boot(pre_, tl_), codes=codes):
+                c = enc_os(m, mask, f, ans, ds)
+                t = tuple(c)
+                if t not in seen:
+                    seen.add(t)
+                    out.append((c, {'kind': 'os-exhaustive-alarm-ops%d-arr%d-mode%d-mask%d' % (maxops, maxarr, m, mask)}))
     # two runs of main() on one object: every schedule of the first run (<= 2 ops, <= 2 arrivals), then every single arrival in the second
     for f in flows(2):
         for ans, ds in enumerate_schedules(f, 2, (1, 2), os_pre=set()):
@@ -917,7 +1133,13 @@ LEVEL_TEXT = ('Machine-checked invariant proofs (Coq) over a small-step transiti
               'numbers are exactly those with a handler activation in progress (plus those the environment had ignored), so at quiescence '
               'every handler is installed whatever blocked_ is; the OS discards an arrival iff a handler for the same number is in progress, '
               'every other arrival reaches processSignal and is a token of the exactly-once accounting; with blocked_=0 it is in the callback '
-              'after its own three steps. The model is tied to the code by differential correspondence of the full step trace (extracted '
+              'after its own three steps; the static instance pointer sigHandler delivers through (set by main(), cleared by ~Application only '
+              'when it points to the object being destroyed) is the running object throughout every run, whatever other Application objects the '
+              'main flow constructs, destroys or copies meanwhile, and is null after its destruction; SIGALRM: setAlarm(n>0) - from the main flow, '
+              'from main() for a time limit, from inside a callback - installs the handler unconditionally, so once it has been executed and no '
+              'SIGALRM activation is in progress the handler is installed even if the environment had SIGALRM ignored and an expiring alarm reaches '
+              'processSignal; a callback that re-arms the alarm leaves the handler installed although its own ScopedSig had set SIG_IGN, so an '
+              'alarm expiring during that callback is not discarded (it re-enters sigHandler and is remembered). The model is tied to the code by differential correspondence of the full step trace (extracted '
               'model vs. sanitizer build of the real class driven through the yield hook; OS-level cases through real raise() inside a real '
               'Application::main() with the dispositions read back by sigaction at every scheduling point), exhaustively for all schedules '
               'with <= 3 operations and <= 3 arrivals in both families, and an independent trace oracle.')
@@ -938,6 +1160,9 @@ EXHAUSTIVE_SPACE = ('quick: every schedule (arrival decisions at every yield poi
                     'OS-LEVEL family (raise() inside the first main(), no number environment-ignored); OS-LEVEL <= 2 ops / <= 2 arrivals inside a second main() and '
                     'with number 1 environment-ignored; two runs: every <= 2 ops / <= 2 arrivals first run x every single arrival in the second run. '
                     'thorough: DIRECT <= 5 ops/3 arrivals, <= 3 ops/4 arrivals, 3 signal numbers; OS-LEVEL <= 4 ops/3 arrivals, <= 3 ops/4 arrivals, <= 3 ops/3 arrivals of '
-                    '3 numbers, <= 3/3 in a second main(), <= 3/2 with numbers 1 and 3 environment-ignored. NOT enumerated: interruptions of sigHandler between its entry and '
+                    '3 numbers, <= 3/3 in a second main(), <= 3/2 with numbers 1 and 3 environment-ignored. OS-LEVEL flows with object operations (construct / destroy another Application, '
+                    'copy-and-drop the running one): quick <= 3 ops over {block, unblock(true), new, delete, copy} / <= 2 arrivals (first main()), <= 2/2 (second main()); thorough <= 4/2, <= 3/3, <= 3/2 (second main()). '
+                    'OS-LEVEL alarm flows (ops over {block, unblock(true), setAlarm}, arrivals of {SIGALRM, 1}, every callback continues or re-arms): quick <= 3 ops / <= 2 arrivals with SIGALRM '
+                    'environment-ignored and not, <= 2/2 with --time-limit, <= 2/2 inside a second main(); thorough <= 3/3, <= 4/2, all four answer codes with --time-limit. NOT enumerated: interruptions of sigHandler between its entry and '
                     'signal(sig,SIG_IGN) / between the return of processSignal and signal(sig,sigHandler) (no yield point there). '
                     'The unbounded claim is carried by the theorems, not by this enumeration.')
